@@ -6,8 +6,7 @@ import (
 	"github.com/ElrondNetwork/elrond-go/marshal"
 )
 
-
-func eqB(a, b []byte) bool {
+func verifEqB(a, b []byte) bool {
 	if len(a) != len(b) {
 		return false
 	}
@@ -18,50 +17,90 @@ func eqB(a, b []byte) bool {
 	return r
 }
 
+func verifMbHash(bp *baseProcessor, mb *block.MiniBlock) []byte {
+	buff, _ := bp.marshalizer.Marshal(mb)
+	return bp.hasher.Compute(string(buff))
+}
+
+func verifMb(tag string) *block.MiniBlock {
+	ntx := 1
+	if tag == "b" {
+		ntx = verifChoice(tag+"ntx", verifParam("maxTx")+1)
+	}
+	mb := &block.MiniBlock{
+		// values 1..2: always encoded with the same length, so the protobuf encoder does not fork on them
+		SenderShardID:   1 + uint32(verifU8(tag+"snd")&1),
+		ReceiverShardID: 1 + uint32(verifU8(tag+"rcv")&1),
+		Type:            1 + block.Type(verifU8(tag+"type")&1),
+	}
+	for i := 0; i < ntx; i++ {
+		mb.TxHashes = append(mb.TxHashes, verifBytes(tag+"tx", 1))
+	}
+	return mb
+}
+
+// Header entries take their hash from a pool: the body's miniblocks, one further (symbolic) miniblock
+// that is not in the body, or junk. All other header fields are independent symbolic values.
 func Verif_C19_correlation() {
 	bp := &baseProcessor{marshalizer: &marshal.GogoProtoMarshalizer{}, hasher: blake2b.NewBlake2b()}
-	nb := 2
+	nb := verifParam("minBody") + verifChoice("nb", verifParam("maxBody")-verifParam("minBody")+1)
+	nh := verifParam("minHdr") + verifChoice("nh", verifParam("maxHdr")-verifParam("minHdr")+1)
 	body := &block.Body{}
-	var bodyHashes [][]byte
+	var pool [][]byte
 	for i := 0; i < nb; i++ {
-		mb := &block.MiniBlock{
-			TxHashes:        [][]byte{verifBytes("tx", 1)},
-			SenderShardID:   uint32(verifU8("snd") & 1),
-			ReceiverShardID: uint32(verifU8("rcv") & 1),
-			Type:            block.Type(verifU8("type") & 1),
-		}
+		mb := verifMb("b")
 		body.MiniBlocks = append(body.MiniBlocks, mb)
-		h, _ := bp.hasherCompute(mb)
-		bodyHashes = append(bodyHashes, h)
+		pool = append(pool, verifMbHash(bp, mb))
 	}
-	hdrs := make([]block.MiniBlockHeader, 2)
+	pool = append(pool, verifMbHash(bp, verifMb("x")))
+	pool = append(pool, []byte("junkjunkjunkjunkjunkjunkjunkjunk"))
+	hdrs := make([]block.MiniBlockHeader, nh)
 	for i := range hdrs {
+		// symbolic selection from the pool, byte-wise (no path fork per selection)
+		sel := verifU8("hsel")
+		verifAssume(int(sel) < len(pool))
+		h := make([]byte, 32)
+		for j := range h {
+			for k := range pool {
+				h[j] = verifIteByte(int(sel) == k, pool[k][j], h[j])
+			}
+		}
 		hdrs[i] = block.MiniBlockHeader{
-			Hash:            verifBytes("hdrHash", 32),
-			SenderShardID:   uint32(verifU8("hsnd") & 1),
-			ReceiverShardID: uint32(verifU8("hrcv") & 1),
+			Hash:            h,
+			SenderShardID:   1 + uint32(verifU8("hsnd")&1),
+			ReceiverShardID: 1 + uint32(verifU8("hrcv")&1),
 			TxCount:         uint32(verifU8("hcount") & 3),
-			Type:            block.Type(verifU8("htype") & 1),
+			Type:            1 + block.Type(verifU8("htype")&1),
 		}
 	}
 	err := bp.checkHeaderBodyCorrelation(hdrs, body)
 	if err == nil {
+		verifAssert(nh == nb, "accepted with a different number of miniblocks")
 		match := func(h int, b int) bool {
 			mb := body.MiniBlocks[b]
-			return eqB(hdrs[h].Hash, bodyHashes[b]) && hdrs[h].SenderShardID == mb.SenderShardID &&
+			return verifEqB(hdrs[h].Hash, pool[b]) && hdrs[h].SenderShardID == mb.SenderShardID &&
 				hdrs[h].ReceiverShardID == mb.ReceiverShardID && hdrs[h].Type == mb.Type && hdrs[h].TxCount == uint32(len(mb.TxHashes))
 		}
-		verifAssert((match(0, 0) && match(1, 1)) || (match(0, 1) && match(1, 0)), "accepted body is a one-to-one match of the header's miniblocks")
+		if nh == nb {
+			// a bijection header entry <-> body miniblock must exist (n <= 3: enumerate permutations)
+			ok := false
+			switch nb {
+			case 0:
+				ok = true
+			case 1:
+				ok = match(0, 0)
+			case 2:
+				ok = (match(0, 0) && match(1, 1)) || (match(0, 1) && match(1, 0))
+			case 3:
+				perms := [][3]int{{0, 1, 2}, {0, 2, 1}, {1, 0, 2}, {1, 2, 0}, {2, 0, 1}, {2, 1, 0}}
+				for _, p := range perms {
+					ok = ok || (match(0, p[0]) && match(1, p[1]) && match(2, p[2]))
+				}
+			}
+			verifAssert(ok, "accepted body is not a one-to-one match of the header's miniblocks")
+		}
 		verifReach("accepted")
 	} else {
 		verifReach("rejected")
 	}
-}
-
-func (bp *baseProcessor) hasherCompute(mb *block.MiniBlock) ([]byte, error) {
-	buff, err := bp.marshalizer.Marshal(mb)
-	if err != nil {
-		return nil, err
-	}
-	return bp.hasher.Compute(string(buff)), nil
 }
